@@ -91,6 +91,8 @@ def main():
 
     for k, v in ctx.known_hits.items():
         print("KNOWN-FINDING: property=%s %s [%s]" % (pid, kf[k]["what"], k))
+        if os.environ.get("VERIF_DUMP_KEY") and os.environ["VERIF_DUMP_KEY"] in k:
+            print("  dump-known: " + json.dumps(v, default=str)[:1500])
 
     rc = 0
     replay_path = None
